@@ -460,11 +460,19 @@ impl EncRun {
 }
 
 pub fn run_enc(ctx: &MCTPSMBusContext, call: &EncCall, dst: u8, size: usize, flavour: u8) -> EncRun {
+    run_enc_opt(ctx, call, dst, size, flavour, true)
+}
+
+/// `use_prefill` false: pure poison even when a prefill is active (the
+/// comparison run of C16).
+pub fn run_enc_opt(ctx: &MCTPSMBusContext, call: &EncCall, dst: u8, size: usize, flavour: u8, use_prefill: bool) -> EncRun {
     let mut buf: Vec<u8> = (0..size).map(|i| enc_poison(i, flavour)).collect();
     PREFILL.with(|c| {
         if let Some(p) = c.borrow().as_ref() {
-            let n = p.len().min(size);
-            buf[..n].copy_from_slice(&p[..n]);
+            if use_prefill {
+                let n = p.len().min(size);
+                buf[..n].copy_from_slice(&p[..n]);
+            }
         }
     });
     let pre = buf.clone();
